@@ -229,7 +229,7 @@ UNIT = {
      ],
      'rewrites': [
         {'rule': 'R3', 'regex': r'field: "[^"]*"\.into\(\),?', 'replace': '', 'count': 2},
-        {'rule': 'R7', 'regex': r'let key = (trailer\s*\.get\("ID"\).*?\.as_array\(\)\?)\s*\.get\(0\)', 'replace': r'let key = hoist_first(\1)', 'count': 1},
+        {'rule': 'R7', 'regex': r'let key = (trailer\s*\.get\("ID"\).*?\.as_array\(\)\?)\s*\.get\((\d+)\)', 'replace': r'let key = hoist_get(\1, \2)', 'count': 1},
      ]},
  },
 }
